@@ -113,7 +113,7 @@ Definition pinfix (rec : N -> pstate -> pres (expr * pstate)) (recargs : pstate 
   | IK_ParseFunctionCallExpression =>
       match lft with
       | EIdent f => do (a, st') <- recargs st1; POK (ECall f (cur st1) a (cur st'), st')
-      | _ => PErrNoTok      (* errors.New("Function name must be IDENT") *)
+      | _ => err_cur E_fname st1      (* ParseError{Token: p.curToken.Token, "Function name must be IDENT"} *)
       end
   end.
 
